@@ -473,6 +473,9 @@ def main(argv=None):
     exit_code = 0
     violation_lines = []
     if new_fails:
+        hist = Counter(sig for _i, sig, _d in new_fails)
+        for sig, cnt in hist.most_common(12):
+            print(f"  {cnt:7d} x {sig}")
         # one replay per distinct signature (up to 3), minimised, verified in a fresh process
         by_sig = {}
         for i, sig, detail in sorted(new_fails):
